@@ -71,7 +71,9 @@ def bad_message(kind, rng):
     if kind == "extra-field-in-value":
         return json.dumps({"action_type": "ActionType.FindServices", "parameters": {"source_host": {"ip": "192.168.2.2", "x": 1}, "target_host": src}}).encode()
     if kind == "network-mask-not-int":
-        return json.dumps({"action_type": "ActionType.ScanNetwork", "parameters": {"source_host": src, "target_network": {"ip": "192.168.1.0", "mask": rng.choice(["24", True, 24.9, None, [24]])}}}).encode()
+        return json.dumps({"action_type": "ActionType.ScanNetwork", "parameters": {"source_host": src, "target_network": {"ip": rng.choice(["192.168.1.0", "192.168.1.0", "192.168.2.0", "192.168.3.0"]),
+                           # 24.0 == 24 and False == 0 in Python: values that EQUAL the mask of a network that is scanned all the time, but are not integers
+                           "mask": rng.choice(["24", True, False, 24.9, None, [24], 24.0, 24.0, 24.0, 0.0, 16.0])}}}).encode()
     if kind == "reset-bad-flag":     # the value is not the text of a boolean
         return json.dumps({"action_type": "ActionType.ResetGame", "parameters": {"request_trajectory": rng.choice(["maybe", "1", "yes", "None", "[1, 2]", "true ", "'True'"])}}).encode()
     if kind == "reset-unknown-param":
@@ -221,6 +223,20 @@ def settings_of(coord):
             "storeTraj": bool(coord.task_config.get_store_trajectories())}
 
 
+_settings_of_running = settings_of
+
+
+def settings_rewards_as_written(coord):
+    """Model settings as `settings_of`, but the three rewards are the values WRITTEN in the task configuration (absent: the
+    documented default 0), not what the coordinator made of them: 'the fail reward' / 'the configured reward' is the
+    file's value."""
+    s = _settings_of_running(coord)
+    rw = ((coord.task_config.config.get("env") or {}).get("rewards")) or {}
+    for k, f in (("step", "rStep"), ("success", "rSuccess"), ("fail", "rFail")):
+        s[f] = scaled(rw.get(k, 0))
+    return s
+
+
 STATUS = {"AgentStatus.Playing": "Playing", "AgentStatus.PlayingWithTimeout": "PlayingWithTimeout",
           "AgentStatus.TimeoutReached": "TimeoutReached", "AgentStatus.Success": "Success", "AgentStatus.Fail": "Fail"}
 CODE = {"GameStatus.OK": "OK", "GameStatus.CREATED": "CREATED", "GameStatus.RESET_DONE": "RESET_DONE",
@@ -239,6 +255,7 @@ class Session:
         self.keys = {}
         self.oracle = {}
         self.awaiting = {}        # cid -> description of the unanswered request
+        self.last_msg = {}        # cid -> the last message event fed on that connection
         self.pending_leave = {}   # cid -> kind (eof / readerr noticed only after the reply)
         self.next_cid = 0
         self.alive = set()
@@ -390,6 +407,19 @@ class Session:
                     r["obs"] = {"view": C.canon_view(C.view2j(st)), "reward": scaled(ob["reward"]), "end": bool(ob["end"]),
                                 "reason": STATUS.get((ob.get("info") or {}).get("end_reason"))}
                     r["obs_view_raw"] = C.view2j(st)
+                    # C15: the view inside the response decodes to exactly (==) the view the coordinator holds for that agent -
+                    # also where both list the same elements but the held view is built from other container types
+                    held = self.coord._agent_states.get(PEER(cid))
+                    if held is not None and PEER(cid) in self.coord.agents and not (st == held):
+                        try:
+                            same_elems = C.canon_view(C.view2j(held)) == r["obs"]["view"]
+                        except Exception:
+                            same_elems = False
+                        if same_elems:
+                            odd = sorted({f"{part}[{k}]: {type(v).__name__}" for part in ("known_services", "known_data", "known_blocks") for k, v in getattr(held, part).items() if not isinstance(v, (set, frozenset))}
+                                         | {f"{part}: {type(getattr(held, part)).__name__}" for part in ("known_networks", "known_hosts", "controlled_hosts") if not isinstance(getattr(held, part), (set, frozenset))})
+                            self.fail({"C15"}, "sent-view-not-equal-held", f"the view in the {r['code']} response to connection {cid} lists the same elements as the view the coordinator holds for that agent, "
+                                      f"but decoding it does not give an equal view (== is False); held containers of unexpected type: {odd[:4]}", self.replay())
                 except Exception as e:
                     self.fail({"C15"}, "undecodable-view", f"view in a response does not decode: {e!r}", self.replay())
             msg = j.get("message")
@@ -455,6 +485,7 @@ class Session:
             if cid in self.awaiting or self.sim.conns[cid].task.done() or self.sim.client_closed(cid):
                 return None
             self.awaiting[cid] = ev["m"]
+            self.last_msg[cid] = ev
             self.sim.feed_raw(cid, ev["raw_bytes"])
             return [{"t": "msg", "c": cid, "m": ev["m"], "o": None}]
         if t in ("eof", "readerr"):
@@ -783,6 +814,8 @@ class Session:
                         tags.add("C10")
                     if c != cid:
                         tags.add("C12")
+                        if f == "view":
+                            tags.add("C11")      # the view this agent was last handed was modified while somebody else's action was handled
                     if kind == "reset" or (f in ("view", "steps", "status", "ended") and not ra[c]["resetReq"] and c != cid):
                         tags.add("C07")
                     return [(tags, f"agent:{f}:{kind}:{'self' if c == cid else 'other'}",
@@ -816,6 +849,21 @@ class Session:
                     self.fail({"C07", "C05"}, "reset-obs", f"RESET_DONE with reward {o['obs']['reward']} end {o['obs']['end']}", self.replay())
             elif o["code"] == "OK":
                 self.sent_log.setdefault(c, []).append((o["obs"]["reward"], o["obs"]["view"]))
+                # C16: the trajectory lists the game actions that were executed - as the agent sent them
+                lm = self.last_msg.get(c)
+                if lm is not None and lm["m"].get("k") == "game" and not lm.get("must_refuse"):
+                    try:
+                        sent = Action.from_json(lm["raw_bytes"].decode())
+                        acts = self.coord._agent_trajectories[PEER(c)]["trajectory"]["actions"]
+                        recorded = Action.from_dict(acts[-1]) if acts else None
+                    except Exception:
+                        sent = recorded = None
+                    if sent is not None and recorded is not None and not (recorded == sent):
+                        S["recorded_action_checked"] = S.get("recorded_action_checked", 0) + 1
+                        self.fail({"C16"}, "recorded-action-not-sent:" + str(sent.type).split(".")[-1],
+                                  f"connection {c} sent {str(sent)[:200]} and got OK, but the action recorded in its trajectory is {str(recorded)[:200]}", self.replay())
+                    elif sent is not None:
+                        S["recorded_action_checked"] = S.get("recorded_action_checked", 0) + 1
                 if o["obs"]["end"]:
                     k = (c, self.episode.get(c, 0))
                     self.bonus_seen[k] = self.bonus_seen.get(k, 0) + 1
@@ -906,7 +954,7 @@ class Session:
             except Exception as e:
                 bad = [f"maps-incomplete:{e!r}"]
             if bad:
-                self.fail({"C08", "C13"}, "world-not-restored-dynamic:" + ",".join(bad)[:60],
+                self.fail({"C08", "C13", "C03"}, "world-not-restored-dynamic:" + ",".join(bad)[:60],
                           f"after a completed reset with dynamic addresses the tables {bad} are not the initial tables under the published re-labelling (after {kind} on {cid})", self.replay())
                 self.tables0 = None
         if self.world0 is not None and not co.task_config.get_use_dynamic_addresses() and any(o.get("code") == "RESET_DONE" for o in real_outs):
@@ -947,8 +995,20 @@ class Session:
                 tags = {"C01"} | ({"C09"} if m["k"] == "bad" else set()) | ({"C06"} if m["k"] in ("join", "game") else set()) | ({"C07"} if m["k"] == "reset" else set()) | ({"C10"} if kind in ("eof", "readerr", "quit", "burst") else set())
                 if self.cfg["env"].get("use_dynamic_addresses") and m["k"] in ("join", "reset"):
                     tags.add("C13")      # under dynamic addresses joins and resets go through the re-labelled start positions: the task must stay playable
+                if m["k"] == "join" and m.get("role") in ("Attacker", "Defender"):
+                    tags.add("C19")      # a join builds the initial view from the configured start position: that view never reaches the agent
                 self.fail(tags, f"unanswered:{m['k']}", f"request {m['k']} of connection {c} is unanswered at quiescence although no documented barrier is unmet (after {kind} on {cid})", self.replay())
                 self.broken = True
+                # C18 / C10: the client gives up and closes its end.  Whatever went wrong with the answer, the served
+                # connection has ended and its slot must come back
+                try:
+                    if not self.sim.client_closed(c):
+                        self.sim.eof(c)
+                    if not self.sim.handler_done(c):
+                        self.fail({"C18", "C10"}, f"slot-lost:{m['k']}", f"connection {c} got no answer to its {m['k']} request, gave up and closed: the server never ends that connection, "
+                                  f"its slot stays taken for ever (after {kind} on {cid})", self.replay())
+                except Exception:
+                    pass
             else:
                 S.setdefault("parked", {})
                 S["parked"][why] = S["parked"].get(why, 0) + 1
@@ -1236,6 +1296,9 @@ def directed_sessions(drv, rng, defender_tables, on_fail, stats, n):
             else:
                 net = Network("192.168.1.0", 24)
                 evs += [ev_game(sess, 0, Action(ActionType.ScanNetwork, {"source_host": ip("192.168.2.2"), "target_network": net})),
+                        # the same scan with the mask written as a float that EQUALS the integer just used: not a well-formed request
+                        {"t": "msg", "c": 0, "m": {"k": "bad"}, "bad_kind": "network-mask-not-int",
+                         "raw_bytes": json.dumps({"action_type": "ActionType.ScanNetwork", "parameters": {"source_host": {"ip": "192.168.2.2"}, "target_network": {"ip": "192.168.1.0", "mask": 24.0}}}).encode()},
                         ev_game(sess, 0, Action(ActionType.FindData, {"source_host": ip("192.168.2.2"), "target_host": ip("192.168.2.2")})),
                         ev_game(sess, 0, Action(ActionType.FindData, {"source_host": ip("213.47.23.195"), "target_host": ip("213.47.23.195")}))]
             for e in evs:
@@ -1357,6 +1420,158 @@ def directed_races(drv, rng, defender_tables, on_fail, stats, n):
             sess.close()
 
 
+def directed_shared_block(drv, rng, defender_tables, on_fail, stats, n):
+    """Three players, two of them defenders that control the same host and put the SAME firewall block on it (each one's view
+    then records it; the world holds it once).  Both leave in the same episode - the second one by an explicit QuitGame or
+    otherwise - while the attacker stays; replacements connect and join.  Judged like every session."""
+    def ev_game(sess, cid, a, roll=0.9):
+        return {"t": "msg", "c": cid, "m": {"k": "game", "act": sess.akey(a)}, "raw_bytes": a.to_json().encode(), "roll": roll}
+
+    def ev_join(cid, role):
+        return {"t": "msg", "c": cid, "m": {"k": "join", "name": f"agent{cid}", "role": role}, "raw_bytes": J(ActionType.JoinGame, agent_info=AgentInfo(f"agent{cid}", role))}
+    for i in range(n):
+        cfg = gen_config(rng)
+        cfg["env"].update({"required_players": 3, "use_dynamic_addresses": False, "use_firewall": True, "use_global_defender": rng.random() < 0.3})
+        cfg["coordinator"]["agents"]["Attacker"]["start_position"]["controlled_hosts"] = ["213.47.23.195", "192.168.2.2"]
+        cfg["coordinator"]["agents"]["Attacker"].pop("max_steps", None)
+        cfg["coordinator"]["agents"]["Defender"]["start_position"]["controlled_hosts"] = ["192.168.1.2"]
+        cfg["coordinator"]["agents"]["Defender"]["goal"]["known_blocks"] = {"192.168.1.6": ["213.47.23.195"]}      # not reached by the script
+        cfg["coordinator"]["agents"]["Defender"].pop("max_steps", None)
+        sess = Session(drv, rng, cfg, defender_tables, on_fail, stats, f"shared-block#{i}")
+        try:
+            if sess.sim.startup_error is not None or sess.sim.server_cb is None:
+                continue
+            roles = ["Defender", "Defender", "Attacker"]
+            rng.shuffle(roles)
+            d = [c for c in range(3) if roles[c] == "Defender"]
+            for c in range(3):
+                sess.do({"t": "connect", "c": c})
+                sess.do(ev_join(c, roles[c]))
+            blocked = IP(rng.choice(["192.168.2.2", "192.168.1.3", "213.47.23.195"]))
+            blk = Action(ActionType.BlockIP, {"source_host": IP("192.168.1.2"), "target_host": IP("192.168.1.2"), "blocked_host": blocked})
+            sess.do(ev_game(sess, d[0], blk))
+            if rng.random() < 0.5:
+                sess.do(ev_game(sess, d[1], blk))
+            else:       # the second defender learns the block by looking at the host
+                sess.do(ev_game(sess, d[1], Action(ActionType.FindData, {"source_host": IP("192.168.1.2"), "target_host": IP("192.168.1.2")})))
+            if rng.random() < 0.3:
+                sess.do(ev_game(sess, d[0], Action(ActionType.BlockIP, {"source_host": IP("192.168.1.2"), "target_host": IP("192.168.1.2"), "blocked_host": IP("192.168.1.4")})))
+            order = d[:] if rng.random() < 0.5 else d[::-1]
+            hows = [rng.choice(["quit", "eof", "readerr", "quit"]), rng.choice(["quit", "quit", "eof"])]
+            for c, how in zip(order, hows):
+                if sess.broken:
+                    break
+                sess.do({"t": "msg", "c": c, "m": {"k": "quit"}, "raw_bytes": J(ActionType.QuitGame)} if how == "quit" else {"t": how, "c": c, "exc": "reset"})
+            for c in (3, 4):
+                if sess.broken:
+                    break
+                sess.do({"t": "connect", "c": c})
+                sess.do(ev_join(c, "Defender"))
+            sess.next_cid = 5
+            sc = Script(sess, rng, {"bad": 0.0, "leave": 0.1, "burst": 0.0, "reuse": 0.0})
+            for _ in range(10):
+                if sess.broken:
+                    break
+                sess.do(sc.next())
+            stats["directed_shared_block"] = stats.get("directed_shared_block", 0) + 1
+        finally:
+            sess.close()
+
+
+def directed_late_joiner(drv, rng, defender_tables, on_fail, stats, n):
+    """Dynamic addresses: the players of the first episode(s) reset the game once or twice (every reset re-labels the
+    network), then one of them leaves and a NEW agent connects and joins: its initial view must be the configured start
+    position followed through the re-labellings so far (oracles: start-view-ghosts / start-view-missing), and play goes on."""
+    def ev_join(cid, role):
+        return {"t": "msg", "c": cid, "m": {"k": "join", "name": f"agent{cid}", "role": role}, "raw_bytes": J(ActionType.JoinGame, agent_info=AgentInfo(f"agent{cid}", role))}
+
+    def ev_reset(cid, tr=False):
+        return {"t": "msg", "c": cid, "m": {"k": "reset", "traj": tr}, "raw_bytes": J(ActionType.ResetGame, request_trajectory=tr)}
+    for i in range(n):
+        cfg = gen_config(rng)
+        req = rng.choice([1, 1, 2])
+        cfg["env"].update({"required_players": req, "use_dynamic_addresses": True, "use_firewall": True, "use_global_defender": False})
+        att = cfg["coordinator"]["agents"]["Attacker"]
+        att["start_position"]["controlled_hosts"] = ["213.47.23.195", "192.168.2.2"]
+        att["start_position"]["known_hosts"] = rng.choice([[], ["192.168.1.2"], ["192.168.1.3", "192.168.2.1"]])
+        att.pop("max_steps", None)
+        cfg["coordinator"]["agents"]["Defender"]["start_position"]["controlled_hosts"] = rng.choice([["192.168.1.2"], ["192.168.1.2", "192.168.2.2"]])
+        cfg["coordinator"]["agents"]["Defender"].pop("max_steps", None)
+        sess = Session(drv, rng, cfg, defender_tables, on_fail, stats, f"late-joiner#{i}")
+        try:
+            if sess.sim.startup_error is not None or sess.sim.server_cb is None:
+                continue
+            roles = ["Attacker"] + [rng.choice(["Attacker", "Defender"]) for _ in range(req - 1)]
+            for c in range(req):
+                sess.do({"t": "connect", "c": c})
+                sess.do(ev_join(c, roles[c]))
+            sess.next_cid = req + 1
+            sc = Script(sess, rng, {"bad": 0.0, "leave": 0.0, "burst": 0.0, "reuse": 0.0, "reset": 0.0})
+            for _ in range(rng.randint(1, 2)):
+                for _ in range(rng.randint(1, 4)):
+                    if sess.broken:
+                        break
+                    sess.do(sc.next())
+                for c in range(req):
+                    if not sess.broken:
+                        sess.do(ev_reset(c, rng.random() < 0.3))
+            if sess.broken:
+                continue
+            leaver = rng.randrange(req)
+            sess.do({"t": "msg", "c": leaver, "m": {"k": "quit"}, "raw_bytes": J(ActionType.QuitGame)} if rng.random() < 0.5 else {"t": "eof", "c": leaver})
+            sess.do({"t": "connect", "c": req})
+            sess.do(ev_join(req, roles[leaver]))
+            for _ in range(6):
+                if sess.broken:
+                    break
+                sess.do(sc.next())
+            stats["directed_late_joiner"] = stats.get("directed_late_joiner", 0) + 1
+        finally:
+            sess.close()
+
+
+def directed_find_services(drv, rng, defender_tables, on_fail, stats, n):
+    """One attacker scans the networks it knows and then asks for the services of EVERY host it knows - routers and hosts
+    that expose nothing included - and for the data of every host it controls; then resets with the trajectory attached."""
+    def ev_game(sess, cid, a, roll=0.9):
+        return {"t": "msg", "c": cid, "m": {"k": "game", "act": sess.akey(a)}, "raw_bytes": a.to_json().encode(), "roll": roll}
+    for i in range(n):
+        cfg = gen_config(rng)
+        cfg["env"].update({"required_players": 1, "use_dynamic_addresses": False, "use_firewall": rng.random() < 0.8, "use_global_defender": False})
+        att = cfg["coordinator"]["agents"]["Attacker"]
+        att["start_position"]["controlled_hosts"] = rng.choice([["213.47.23.195", "192.168.2.2"], ["192.168.2.2"], ["192.168.2.2", "192.168.1.2"]])
+        att.pop("max_steps", None)
+        att["goal"].update({"known_networks": [], "known_hosts": [], "controlled_hosts": [], "known_services": {}, "known_blocks": {},
+                            "known_data": {"213.47.23.195": [["User9", "NoSuchData"]]}})
+        sess = Session(drv, rng, cfg, defender_tables, on_fail, stats, f"find-services#{i}")
+        try:
+            if sess.sim.startup_error is not None or sess.sim.server_cb is None:
+                continue
+            sess.do({"t": "connect", "c": 0})
+            sess.do({"t": "msg", "c": 0, "m": {"k": "join", "name": "agent0", "role": "Attacker"}, "raw_bytes": J(ActionType.JoinGame, agent_info=AgentInfo("agent0", "Attacker"))})
+            v = sess.coord._agent_states.get(PEER(0))
+            if v is None:
+                continue
+            src = IP("192.168.2.2")
+            for net in sorted(v.known_networks, key=str):
+                sess.do(ev_game(sess, 0, Action(ActionType.ScanNetwork, {"source_host": src, "target_network": net})))
+            v = sess.coord._agent_states.get(PEER(0))
+            hosts = sorted(v.known_hosts, key=str)
+            rng.shuffle(hosts)
+            for h in hosts[:12]:
+                if sess.broken:
+                    break
+                sess.do(ev_game(sess, 0, Action(ActionType.FindServices, {"source_host": src, "target_host": h})))
+            for h in sorted(v.controlled_hosts, key=str):
+                if not sess.broken:
+                    sess.do(ev_game(sess, 0, Action(ActionType.FindData, {"source_host": h, "target_host": h})))
+            if not sess.broken:
+                sess.do({"t": "msg", "c": 0, "m": {"k": "reset", "traj": True}, "raw_bytes": J(ActionType.ResetGame, request_trajectory=True)})
+            stats["directed_find_services"] = stats.get("directed_find_services", 0) + 1
+        finally:
+            sess.close()
+
+
 def directed_defender(drv, rng, defender_tables, on_fail, stats, n):
     """Global defender on, one attacker, long episodes: an identical FindData / ExploitService is repeated with 5-8 other
     actions in between (fillers rolled high so that only the repeats can be detected), the repeats rolled 0: detection
@@ -1367,6 +1582,8 @@ def directed_defender(drv, rng, defender_tables, on_fail, stats, n):
     for i in range(n):
         cfg = gen_config(rng)
         cfg["env"].update({"required_players": 1, "use_dynamic_addresses": False, "use_firewall": True, "use_global_defender": True})
+        if rng.random() < 0.5:      # the fail reward takes the configured value also when that is not a whole number
+            cfg["env"]["rewards"] = rng.choice([{"step": -0.5, "success": 10.5, "fail": -7.5}, {"step": -0.25, "fail": -1.5}, {"step": -0.125, "success": 3.375, "fail": -0.625}, {"fail": -2.75}])
         att = cfg["coordinator"]["agents"]["Attacker"]
         att["start_position"]["controlled_hosts"] = ["213.47.23.195", "192.168.2.2"]
         att["max_steps"] = 60
@@ -1474,6 +1691,106 @@ def probe_unencodable_name(on_fail, stats):
                     {"kind": "config-session", "config": cfg})
     finally:
         sim.close()
+
+
+def probe_surrogate_echo(on_fail, stats):
+    """Messages that are valid JSON but carry a lone UTF-16 surrogate in the text an error reply echoes (role, action type,
+    parameter name).  Each must be answered with a refusal on the same connection, the connection must stay open, nobody's
+    membership may change, and the game goes on (C01: one reply per request; C09: a refusal is the whole effect).
+    (The Lean driver's JSON reader cannot carry such a string, so this is a probe of the real code alone.)"""
+    cfg = default_config(env={"required_players": 2})
+    sim = Sim(cfg)
+    S = b"\\ud800"
+    try:
+        if sim.startup_error is not None or sim.server_cb is None:
+            return
+        sim.connect(0)
+        sim.connect(1)
+        sim.outputs()
+
+        def refused(cid, what, raw, script):
+            members0 = sorted(map(str, sim.coord.agents))
+            sim.send(cid, raw)
+            outs = [(c, k, (parse_reply(p)[1] or {}).get("status") if k == "reply" else None) for c, k, p in sim.outputs()]
+            died = [repr(u.get("exception"))[:120] for u in sim.loop.unhandled]
+            stats["probe_surrogate_echo"] = stats.get("probe_surrogate_echo", 0) + 1
+            members = sorted(map(str, sim.coord.agents))
+            if outs == [(cid, "reply", "GameStatus.BAD_REQUEST")] and members == members0 and not sim.conns[cid].writer.closed:
+                return True
+            on_fail({"C01", "C09"}, "surrogate-echo:" + what.split(" '")[0].replace(" ", "-"),
+                    f"connection {cid} sent a message with {what} (valid JSON, lone surrogate): expected exactly one BAD_REQUEST reply on that connection and no other effect; "
+                    f"got {outs}, members {members0} -> {members}, connection closed={sim.conns[cid].writer.closed}, exceptions {died}",
+                    {"kind": "config-session", "config": cfg, "script": script + [f"connection {cid}: {raw.decode()}"]})
+            return False
+        script = ["two connections open (2 players required)"]
+        # before joining
+        if not refused(1, "join with role '\\ud800dmin'", b'{"action_type": "ActionType.JoinGame", "parameters": {"agent_info": {"name": "b", "role": "' + S + b'dmin"}}}', script):
+            return
+        if not refused(0, "not an object: '\\ud800'", b'"' + S + b'"', script):
+            return
+        sim.send(0, J(ActionType.JoinGame, agent_info=AgentInfo("a", "Attacker")))
+        sim.send(1, J(ActionType.JoinGame, agent_info=AgentInfo("b", "Attacker")))
+        outs = sorted((c, (parse_reply(p)[1] or {}).get("status")) for c, k, p in sim.outputs() if k == "reply")
+        if outs != [(0, "GameStatus.CREATED"), (1, "GameStatus.CREATED")]:
+            on_fail({"C01", "C09"}, "surrogate-echo:game-does-not-start", f"after two refused messages with lone surrogates both players join: expected CREATED for both, got {outs}",
+                    {"kind": "config-session", "config": cfg})
+            return
+        script.append("a and b join: game started")
+        # while playing
+        if not refused(0, "action type '\\ud800Scan'", b'{"action_type": "' + S + b'Scan", "parameters": {}}', script):
+            return
+        if not refused(1, "parameter named '\\ud800x'", b'{"action_type": "ActionType.FindData", "parameters": {"' + S + b'x": 1}}', script):
+            return
+        steps0 = dict(sim.coord._agent_steps)
+        sim.send(0, J(ActionType.ScanNetwork, source_host=IP("192.168.2.2"), target_network=Network("192.168.1.0", 24)))
+        outs = [(c, (parse_reply(p)[1] or {}).get("status")) for c, k, p in sim.outputs() if k == "reply"]
+        if outs != [(0, "GameStatus.OK")] or sim.coord._agent_steps.get(PEER(0)) != steps0.get(PEER(0), 0) + 1 or sim.coord._agent_steps.get(PEER(1)) != steps0.get(PEER(1), 0):
+            on_fail({"C01", "C09"}, "surrogate-echo:game-does-not-go-on", f"after the refused messages agent a scans: expected one OK and one step counted for a only, got {outs}, step counters {steps0} -> {dict(sim.coord._agent_steps)}",
+                    {"kind": "config-session", "config": cfg})
+    finally:
+        sim.close()
+
+
+def probe_leave_unwritable_store(on_fail, stats):
+    """save_trajectories on, but the trajectory store cannot be written (a FILE named ./trajectories is in the way).  No
+    reset happens, so nothing has to be stored: agents that leave mid-episode (QuitGame / closing the connection) must be
+    forgotten completely, their slots freed, and a new agent must be able to connect and join (C10, C18; the close is the
+    answer to QuitGame, C01).  An environment fault the lock-step sessions do not inject: probe of the real code alone."""
+    for how in ("quit", "eof"):
+        cfg = default_config(env={"required_players": 2, "save_trajectories": True})
+        sim = Sim(cfg)
+        try:
+            if sim.startup_error is not None or sim.server_cb is None:
+                return
+            with open(os.path.join(sim.workdir, "trajectories"), "w") as f:
+                f.write("not a directory\n")
+            sim.connect(0)
+            sim.send(0, J(ActionType.JoinGame, agent_info=AgentInfo("a", "Attacker")))
+            sim.connect(1)
+            sim.send(1, J(ActionType.JoinGame, agent_info=AgentInfo("b", "Attacker")))
+            sim.outputs()
+            sim.send(0, J(ActionType.ScanNetwork, source_host=IP("192.168.2.2"), target_network=Network("192.168.1.0", 24)))
+            sim.outputs()
+            if how == "quit":
+                sim.send(0, J(ActionType.QuitGame))
+            else:
+                sim.eof(0)
+            outs = [(c, k) for c, k, p in sim.outputs()]
+            died = [repr(u.get("exception"))[:120] for u in sim.loop.unhandled]
+            stats["probe_leave_unwritable_store"] = stats.get("probe_leave_unwritable_store", 0) + 1
+            rep = {"kind": "config-session", "config": cfg, "script": ["a file named ./trajectories blocks the store", "a, b join", "a: ScanNetwork", f"a leaves ({how})"]}
+            if PEER(0) in sim.coord.agents or not sim.handler_done(0) or (how == "quit" and (0, "closed") not in outs):
+                on_fail({"C10", "C18"} | ({"C01"} if how == "quit" else set()), f"leave-unwritable-store:{how}:not-forgotten",
+                        f"trajectory store unwritable, agent a leaves by {how} mid-episode: still a member={PEER(0) in sim.coord.agents}, connection handler finished={sim.handler_done(0)}, outputs {outs}, exceptions {died}", rep)
+                continue
+            sim.connect(2)
+            sim.send(2, J(ActionType.JoinGame, agent_info=AgentInfo("c", "Attacker")))
+            sim.outputs()
+            if sim.conns[2].writer.closed or PEER(2) not in sim.coord.agents:
+                on_fail({"C10", "C18"}, f"leave-unwritable-store:{how}:no-rejoin",
+                        f"trajectory store unwritable, agent a left by {how}: a new agent connecting afterwards is {'refused' if sim.conns[2].writer.closed else 'not registered by its JoinGame'}", rep)
+        finally:
+            sim.close()
 
 
 def probe_defender_rolls(on_fail, stats):
